@@ -6,7 +6,7 @@ import ast
 import re
 
 from . import rule
-from .zmq import anchors, Z, MQF, ret_const
+from .zmq import anchors, Z, MQF, ret_const, stmt_list_containing
 from .c02 import data_publishes, is_control_msg
 from ..model import Unresolved, walk_scope, parent, enclosing_function, qualname
 from ..paths import U, Path, Evaluator
@@ -292,6 +292,9 @@ def r6(rr, repo):
         binds = [e for e in p.events if e.kind == 'bind' and e.term == 'do_send']
         if not binds:
             continue
+        binds = [b for b in binds if b.args[0] != 'False']      # withdrawing the permission is always allowed; what is judged is how it is GRANTED
+        if not binds:
+            continue
         first = binds[0]
         if first.args[0] in seen:
             continue
@@ -306,6 +309,16 @@ def r6(rr, repo):
                 and 'client_id' in U(c.comparators[0]) and 'clients' in U(c.comparators[0])
         rr.ob('the permission to send is initialised from all(id in connected ids for id in self.outs_required)', ok, za.mod, first.node, witness=first.args[0][:200], key='outs-required')
     rr.floor('initialisations of do_send', n, 1, za.mod, za.S_poll)
+    # a permission that was decided while a client was still in the table does not survive that client's CLOSE (it may have been a required output, or the
+    # only client of a balanced output): the CLOSE path, which returns without re-evaluating the table, withdraws it
+    dels = [n_ for n_ in ast.walk(za.S_poll) if isinstance(n_, ast.Delete) and any('clients[' in U(t) for t in n_.targets) and any('MSG_ID_CLOSE' in U(t) for t, pol in q.guards_of(n_, stop=za.S_poll) if pol)]
+    rr.floor('client removals on the CLOSE path of poll_recv', len(dels), 1, za.mod, za.S_poll)
+    for d in dels:
+        _, lst, idx = stmt_list_containing(d)
+        withdrawn = any(isinstance(x, ast.Assign) and U(x.targets[0]) == 'do_send' and U(x.value) == 'False' for x in lst[idx + 1:])
+        recomputed = any(isinstance(x, ast.Assign) and U(x.targets[0]) == 'do_send' and 'outs_required' in U(x.value) for x in lst[idx + 1:])
+        rr.ob('removing a client on CLOSE withdraws (or re-evaluates) the permission to send that was decided while it was there', withdrawn or recomputed, za.mod, d,
+              witness='do_send = False after the removal' if withdrawn else 're-evaluated' if recomputed else 'the CLOSE path leaves do_send as the previous request left it', key='close-withdraws-permission')
     # "connected" excludes a client this very round is about to time out: the set the required ids are looked up in is built from clients whose last request is
     # not older than the timeout (or after the eviction loop); otherwise the round that evicts a silent required consumer still publishes one frame
     loops = [n_ for n_ in walk_scope(za.S_poll) if isinstance(n_, ast.For) and 'clients.items()' in U(n_.iter) and any(isinstance(x, ast.Delete) for x in ast.walk(n_))]
